@@ -264,16 +264,26 @@ def searchDown (d : Design) (insts bound : List Nat) : Nat → HRef → Inst →
          else if c.id ∈ insts then [c.id :: p] else [])
      | none => [])
 
-/-- the netlist is found through the first instance's `reference.library.netlist` -/
+/-- the netlist is found through the first instance: `reference.library.netlist`, or — repaired
+    code — through `parent.library.netlist` when the instance has no reference -/
 def netlistOk (d : Design) (insts : List Nat) : Bool :=
   match insts with
   | [] => false
   | x :: _ =>
     match d.instById x with
     | some i =>
-      match d.defOf i with
-      | some D => D.inNl
-      | none => false
+      match i.ref with
+      | some r =>
+        match d.defs[r]? with
+        | some D => D.inNl
+        | none => false
+      | none =>
+        match d.parentOf x with
+        | some k =>
+          match d.defs[k]? with
+          | some D => D.inNl
+          | none => false
+        | none => false
     | none => false
 
 def allHrefs (d : Design) (insts : List Nat) : List HRef × Bool :=
@@ -444,13 +454,9 @@ def hwiresOfHRef (d : Design) (rec : Bool) (sel : Sel) (h : HRef) : List HRef ×
   | some (.inst i) => ((under d rec h i).flatMap (wiresAt d), true)
   | some (.port P) =>
     let pins := P.pins.map (fun q => q :: h)
-    match sel with
-    | .all => traceAll d pins
-    | s => (pins.flatMap (wiresOfPinSel d s), true)
+    if sel = .all then traceAll d pins else (pins.flatMap (wiresOfPinSel d sel), true)
   | some (.pin _ _) =>
-    match sel with
-    | .all => traceAll d [h]
-    | s => (wiresOfPinSel d s h, true)
+    if sel = .all then traceAll d [h] else (wiresOfPinSel d sel h, true)
   | some (.cable C) =>
     let ws := C.wires.map (fun w => w.id :: h)
     match sel with
